@@ -30,15 +30,18 @@ REQUIRED = [
     'Ems.C16.edit_convention_changes_stream', 'Ems.C16.edit_changes_key',
     'Ems.C16.stream_injective_partial', 'Ems.C16.stream_not_injective',
     'Ems.C16.marshal_flags_matter',
+    'Ems.C16.ugrid_edge_coordinates_are_geometry', 'Ems.C16.edit_value_changes_stream_any_storage',
 ]
 RULE = ('base datasets of all five convention classes from harness/gen/datasets.py (in memory and after a netCDF '
         'round trip, geometry variables enriched with string / int / float / numpy scalar / numpy array attributes; '
-        'UGRID with every subset of optional connectivity, size-two dimension called Two or not); '
+        'UGRID with every subset of optional connectivity, size-two dimension called Two or not; further bases whose '
+        'floating point geometry variables are stored (encoding dtype) with another float type than their values have, '
+        'and UGRID meshes with edge coordinates, with and without a declared edge dimension / edge table); '
         'per base every kind of non-geometry edit (data variable added on grid / time / scalar / new dimension / '
         'as first variable on a new leading dimension, one value changed, removed, all removed, attribute, renamed; '
         'time steps; time coordinate; global attribute add / change / remove; variable order; dimension renames; '
         'coordinate status; dask chunks; deep copy) and per geometry variable every kind of single geometry edit '
-        '(one value; dtype by astype / by reinterpreting the same bytes / in place; shape with the same bytes: '
+        '(one value, also by one unit in the last place; dtype by astype / by reinterpreting the same bytes / in place; shape with the same bytes: '
         'append 1, prepend 1, reversed, flattened, split; rename incl. non-ASCII; attribute add / change / remove; '
         'convention: subclass in another module, same module other name, same name other module, ShocSimple as CFGrid2D). '
         'Every case is rebuilt from its recipe; the byte stream fed to the hash object by the real make_cache_key is '
@@ -77,6 +80,7 @@ SIG_F10 = 'cache-key-marshal-string-flags'
 SIG_ENC = 'cache-key-encoding-dtype-overrides-dtype'
 SIG_PUN = 'cache-key-attr-type-erased'
 SIG_TWO = 'cache-key-ugrid-two-dimension-guess'
+SIG_PREC = 'cache-key-blind-below-storage-precision'
 
 
 # --------------------------------------------------------------------------
@@ -209,6 +213,27 @@ class Eval:
                 for n in self.state['expected'] if n in self.ds.variables}
 
 
+def same_bytes_same_stored_name(vb, ve) -> bool:
+    """both variables hash the same type name although their values have different types, because the name comes
+    from `encoding['dtype']` for at least one of them"""
+    try:
+        eb, ee = vb.encoding.get('dtype'), ve.encoding.get('dtype')
+        nb = np.dtype(eb).name if eb is not None else np.asarray(vb.values).dtype.name
+        ne = np.dtype(ee).name if ee is not None else np.asarray(ve.values).dtype.name
+        return (eb is not None or ee is not None) and nb == ne
+    except Exception:  # noqa
+        return False
+
+
+def stored_narrower(var) -> bool:
+    """the variable is stored (`encoding['dtype']`) with a numeric type of fewer bytes than its values have"""
+    try:
+        enc = var.encoding.get('dtype')
+        return enc is not None and np.dtype(enc).itemsize < np.asarray(var.values).dtype.itemsize
+    except Exception:  # noqa
+        return False
+
+
 def two_dimension_guess_wrong(e: Eval) -> bool:
     """UGRID: `Mesh2DTopology.two_dimension` is 'Two' if that is a dimension of size 2, else the FIRST dimension
     of size 2 of the whole dataset.  True when that guess is not a dimension of the edge tables the generator
@@ -318,6 +343,10 @@ def geo_edit_sets(rng, ev: Eval, full_vars: int) -> list:
         size = max(int(vals.size), 1)
         full = idx < full_vars
         one = [{'op': 'g_value', 'var': name, 'flat': rng.randrange(size)}]
+        if vals.dtype.kind == 'f' and np.isfinite(vals).any():
+            # the smallest change of a value: one element moved to the next number its type can represent
+            finite = [int(k) for k in np.flatnonzero(np.isfinite(vals.reshape(-1)))]
+            E.append(('value:ulp', name, [{'op': 'g_value', 'var': name, 'flat': rng.choice(finite), 'how': 'ulp'}]))
         E.append(('value', name, one))
         if not full:
             # the other geometry variables get one more edit of a random kind
@@ -639,13 +668,77 @@ def base_cases(ctx, rng) -> list:
                 # UGRID allows face_edge_connectivity only together with edges; without an edge dimension
                 # Mesh2DTopology.has_valid_face_edge_connectivity raises (C10's ground, not a dataset of ours)
                 enc['edge_dim_declared'] = True
-        recipe = G.attach_vars(rng, recipe, n_vars=rng.randint(1, 3), dtypes=('f8', 'i4'))
-        if conv == 'shoc_simple':
-            for vr in recipe['vars']:
-                vr['attrs'] = {'standard_name': 'sea_water_something'}
         # alternate in-memory / netCDF so that every convention sees both within 10 bases
-        out.append({'recipe': recipe, 'netcdf': (d // len(G.CONVS)) % 2 == 1, 'enrich': True, 'stabilise': True,
-                    'edits': []})
+        out.append(finish_base(rng, conv, recipe, (d // len(G.CONVS)) % 2 == 1))
+    return out
+
+
+def finish_base(rng, conv: str, recipe: dict, netcdf: bool) -> dict:
+    recipe = G.attach_vars(rng, recipe, n_vars=rng.randint(1, 3), dtypes=('f8', 'i4'))
+    if conv == 'shoc_simple':
+        for vr in recipe['vars']:
+            vr['attrs'] = {'standard_name': 'sea_water_something'}
+    return {'recipe': recipe, 'netcdf': netcdf, 'enrich': True, 'stabilise': True, 'edits': []}
+
+
+FLOAT_OTHER = {'float64': 'float32', 'float32': 'float64'}
+
+
+def storage_type_bases(ctx, rng) -> list:
+    """Bases whose floating point geometry variables are STORED with another floating point type than the one
+    their values have in memory (`encoding['dtype']`): double precision in memory / single precision on disk (set by
+    hand to save space, or a single precision file whose coordinates were replaced by better ones), and the reverse.
+    The geometry of the property is the values and their type; the type of the storage is neither."""
+    out = []
+    n = ctx.budget(3, 15)
+    start = rng.randrange(len(G.CONVS))
+    for k in range(n):
+        conv = G.CONVS[(start + k) % len(G.CONVS)]
+        kw = {'coords_as': rng.choice(['coords', 'vars'])}
+        if conv == 'ugrid':
+            kw.update(face_coords=rng.choice(['vars', 'coords']), tables=rng.choice([[], ['edge_node'], ['face_face']]))
+        elif conv != 'cf1d' and conv != 'shoc_standard':
+            kw['holes'] = rng.random() < 0.5
+        if ctx.tier == 'quick':
+            kw.update({'max_n': 4} if conv != 'ugrid' else {'max_w': 2, 'max_h': 2})
+        recipe = G.random_recipe(rng, conv, ctx.tier, **kw)
+        if conv == 'cf1d' and rng.random() < 0.5:
+            # one axis held in single precision (the generator uses it only where every value is exact in it)
+            recipe[rng.choice(['lon_dtype', 'lat_dtype'])] = 'f4'
+        case = finish_base(rng, conv, recipe, netcdf=rng.random() < 0.4)
+        try:
+            ds, state, _ = K.materialise(case)
+        except Exception:  # noqa  -- a recipe xarray cannot write
+            case['netcdf'] = False
+            ds, state, _ = K.materialise(case)
+        floats = [nm for nm in state['expected']
+                  if nm in ds.variables and ds.variables[nm].dtype.name in FLOAT_OTHER
+                  and 'cf_role' not in ds.variables[nm].attrs]
+        chosen = [nm for nm in floats if rng.random() < 0.7] or floats[:1]
+        case['enc_dtypes'] = {nm: FLOAT_OTHER[ds.variables[nm].dtype.name] for nm in chosen}
+        out.append(case)
+    return out
+
+
+def edge_coordinate_bases(ctx, rng) -> list:
+    """UGRID meshes with characteristic edge coordinates (`edge_coordinates`), alternately on a mesh whose edge
+    dimension is only the one these coordinates span (no `edge_dimension` attribute, no edge_node / edge_face table)
+    and on a mesh that declares its edges."""
+    out = []
+    for k in range(ctx.budget(2, 10)):
+        kw = {'coords_as': rng.choice(['vars', 'coords']), 'face_coords': rng.choice([None, 'vars', 'coords'])}
+        if k % 2 == 0:
+            kw.update(tables=rng.choice([[], ['face_edge'], ['face_face'], ['face_edge', 'face_face']]),
+                      edge_dim_declared=False, transposed=False)
+        else:
+            kw.update(tables=rng.choice([['edge_node'], ['edge_node', 'edge_face'], ['face_edge'], []]),
+                      edge_dim_declared=True)
+        if ctx.tier == 'quick':
+            kw.update(max_w=2, max_h=2)
+        recipe = G.random_recipe(rng, 'ugrid', ctx.tier, **kw)
+        case = finish_base(rng, 'ugrid', recipe, netcdf=(k // 2) % 2 == 1)
+        case['edge_coords'] = rng.choice(['vars', 'coords'])
+        out.append(case)
     return out
 
 
@@ -681,6 +774,7 @@ def run(ctx) -> None:
     # ---- F10 probes on datasets that are NOT stabilised -------------------------------------
     bases = base_cases(ctx, rng)
     probe_bases = [c for c in bases[:ctx.budget(5, 20)]]
+    bases = bases + storage_type_bases(ctx, rng) + edge_coordinate_bases(ctx, rng)
     raw_attr_dicts = []
     for bcase in probe_bases:
         for probe in ['fresh_attrs', 'netcdf', 'pickle', 'copy_alive', 'mfdataset']:
@@ -880,8 +974,17 @@ def run(ctx) -> None:
                 how = edits[0].get('how')
                 if kind == 'attr_pun':
                     sig = SIG_PUN
-                elif how == 'inplace_view' and b.ds.variables[name].encoding.get('dtype') is not None:
+                elif how in ('inplace_view', 'view') and same_bytes_same_stored_name(b.ds.variables[name],
+                                                                                   e.ds.variables.get(name)):
+                    # the known finding: the bytes of the values are the same, their type is not, and the type NAME
+                    # hashed is the one of encoding['dtype'] on at least one side (in place: the encoding stays;
+                    # otherwise: values reinterpreted as exactly the type the base was stored with, e.g. an int64
+                    # table with a fill value, decoded to float64, read as int64)
                     sig = SIG_ENC
+                elif kind.startswith('value') and stored_narrower(b.ds.variables[name]):
+                    # the values differ in memory (geometry_content above) but not once rounded to the type
+                    # the variable is stored with
+                    sig = SIG_PREC
                 else:
                     sig = 'cache-key-geometry-edit-keeps-key'
                 ctx.oracle_fail(sig, desc, f'{kind} on {name or conv} left the key unchanged ({b.key[:16]}…)')
